@@ -158,7 +158,7 @@ PROFILES = {
   # pop-on, cursor and pen: tab offsets, mid-row codes, backspace, special and extended characters
   "popon-pen": dict(styles=("RCL",), pacs=("P15i0", "P14cy", "P1i8"), tos=("TO1", "TO2", "TO3"), mids=("Mit", "Mwh", "Mgu"),
                     texts=("Tab", "Tc"), chars=("S", "X"), bs=True, der=False, enm=False, edm=False, neutral=(), nl=False,
-                    doubling="always", rate="d", reuse=False),
+                    doubling="always", rate="d", reuse=False, midmid=True),
   # pop-on, a row addressed again by a second PAC (overwriting, gaps)
   "popon-reuse": dict(styles=("RCL",), pacs=("P15i0", "P15i8", "P15cy", "P14i0"), tos=(), mids=(), texts=("Tab", "Tc"),
                       chars=("X",), bs=False, der=False, enm=False, edm=False, neutral=(), nl=False, doubling="always",
@@ -250,7 +250,7 @@ class Proto:
     elif ph == "to":
       out += list(prof["mids"]) + texts
     elif ph == "mid":
-      out += texts
+      out += texts + (list(prof["mids"]) if prof.get("midmid") else [])     # a second mid-row code replaces the pen of the first
     elif ph == "text":
       out += texts + list(prof["mids"])
       if prof["bs"]:
